@@ -81,7 +81,9 @@ def _run_case_inner(ctx, case):
             keys = [hks[j] if j == i else hks[j].public_master(multisig=True) for j in range(n)]
             keys = [keys[j] for j in case['perms'][i]]
             try:
-                w = Wallet.create('w', keys, sigs_required=m, network=NET, witness_type=wt, db_uri=uri)
+                afs = case.get('afs')
+                w = Wallet.create('w', keys, sigs_required=m, network=NET, witness_type=wt, db_uri=uri,
+                                  anti_fee_sniping=True if afs is None else bool(afs[i]))
             except Exception as e:
                 bad('create.raises', 'creating cosigner wallet %d raised %r' % (i, e))
             wallets.append(w)
@@ -133,7 +135,12 @@ def _run_case_inner(ctx, case):
             want_script = ref_scripts[u['address']]
             fee = 50000
             t = wa.transaction_create([(_foreign(), u['value'] - fee)],
-                                      [(u['txid'], u['output_n'], u['key_id'], u['value'])], fee=fee)
+                                      [(u['txid'], u['output_n'], u['key_id'], u['value'])], fee=fee,
+                                      **({'locktime': case['locktime']} if case.get('locktime') is not None else {}))
+            if t.locktime == 0:
+                flags.add('locktime_zero')
+            elif case.get('locktime'):
+                flags.add('locktime_explicit')
         except Exception as e:
             bad('create_tx.raises', 'creating the spend raised %r' % e)
         amount = u['value']
@@ -171,6 +178,18 @@ def _run_case_inner(ctx, case):
             except Exception as e:
                 ctx.refusal('import.%s.%s' % (medium, (type(e).__name__ + ':' + str(e))[:50]))
                 continue
+            def _ident(x):
+                return {'locktime': x.locktime, 'version': x.version_int,
+                        'inputs': [(i.prev_txid.hex(), i.output_n_int, i.sequence) for i in x.inputs],
+                        'outputs': [(o.value, o.lock_script.hex()) for o in x.outputs]}
+            try:
+                ia, ib = _ident(t), _ident(t2)
+            except Exception as e:
+                ia = ib = None
+            if ia != ib:
+                diff = ['%s: %r -> %r' % (k, ia[k], ib[k]) for k in ia if ia[k] != ib[k]]
+                bad('import.changes_transaction:' + medium, 'the transaction imported by cosigner %d (%s) is not the '
+                    'transaction that was exported: %s' % (j, medium, '; '.join(diff)[:400]))
             kf = None
             if medium == 'raw' and 0 < len(signed) < m:
                 kf = 'C10-raw-handoff-loses-partial-signatures'
@@ -291,8 +310,10 @@ def _strategy(ctx):
         handoffs = draw(st.lists(st.fixed_dictionaries({'signer': st.integers(0, n - 1),
                                                         'medium': st.sampled_from(['object', 'dict', 'raw'])}),
                                  min_size=1, max_size=n + 1))
+        afs = draw(st.one_of(st.none(), st.lists(st.booleans(), min_size=n, max_size=n)))
+        locktime = draw(st.sampled_from([None, None, 0, 0, 1, 499999999, 500000000, 1700000000]))
         return {'kind': 'ceremony', 'n': n, 'm': m, 'witness_type': wt, 'seeds': [s.hex() for s in seeds],
-                'perms': perms, 'creator': draw(st.integers(0, n - 1)), 'handoffs': handoffs,
+                'afs': afs, 'locktime': locktime, 'perms': perms, 'creator': draw(st.integers(0, n - 1)), 'handoffs': handoffs,
                 'rng': draw(st.integers(0, 2 ** 31))}
     return cases()
 
